@@ -18,15 +18,17 @@ GroupBad(g, vals, lb, ub, name) ==
 Check(e) ==
   LET lin == <<e.v[1] + e.v[2], e.v[1] - e.v[2]>>
       nl  == <<e.v[1] + 1, 2 * e.v[2]>>
-      anyFinite == \E i \in 1..2 : ~IsInf(e.lb[i]) \/ ~IsInf(e.ub[i])
-      maxviol == Max2(Max2(Max2(Violation(e.v[1], e.lb[1], e.ub[1]), Violation(e.v[2], e.lb[2], e.ub[2])),
+      vlb == IF e.vfree THEN <<-INF, -INF>> ELSE e.lb          \* the variable bounds in force
+      vub == IF e.vfree THEN <<INF, INF>> ELSE e.ub
+      anyFinite == \E i \in 1..2 : ~IsInf(vlb[i]) \/ ~IsInf(vub[i])
+      maxviol == Max2(Max2(Max2(Violation(e.v[1], vlb[1], vub[1]), Violation(e.v[2], vlb[2], vub[2])),
                            Max2(Violation(lin[1], e.lb[1], e.ub[1]), Violation(lin[2], e.lb[2], e.ub[2]))),
                       Max2(Violation(nl[1], e.lb[1], e.ub[1]), Violation(nl[2], e.lb[2], e.ub[2])))
   IN IF e.outcome # "ok" THEN "internal_exception"
      ELSE IF ~e.bound.present /\ anyFinite THEN "bound_differences_missing"
      ELSE IF ~e.linear.present THEN "linear_differences_missing"
      ELSE IF ~e.nonlinear.present THEN "nonlinear_differences_missing"
-     ELSE IF GroupBad(e.bound, e.v, e.lb, e.ub, "bound") # "ok" THEN GroupBad(e.bound, e.v, e.lb, e.ub, "bound")
+     ELSE IF GroupBad(e.bound, e.v, vlb, vub, "bound") # "ok" THEN GroupBad(e.bound, e.v, vlb, vub, "bound")
      ELSE IF GroupBad(e.linear, lin, e.lb, e.ub, "linear") # "ok" THEN GroupBad(e.linear, lin, e.lb, e.ub, "linear")
      ELSE IF GroupBad(e.nonlinear, nl, e.lb, e.ub, "nonlinear") # "ok" THEN GroupBad(e.nonlinear, nl, e.lb, e.ub, "nonlinear")
      ELSE IF e.tracked /\ e.kept # (maxviol <= e.tol) THEN "feasibility_not_by_violation_within_tolerance"
